@@ -312,8 +312,10 @@ func cmdCheck(args []string) int {
 		st := r.st
 		states += st.Paths
 		transitions += st.Decisions
-		obligations += st.Asserts
-		discharged += st.Discharged
+		// an assertion instance is discharged either by an unsat answer to PC∧¬assert or by
+		// evaluating to literal true on a path whose condition the solver decided
+		obligations += st.Asserts + st.AssertsConst
+		discharged += st.Discharged + st.AssertsConst
 		queries += st.Queries
 		solverMs += st.SolverTime.Milliseconds()
 		for f := range st.Fns {
